@@ -415,3 +415,36 @@ def At2(m, i, j):
     if len(sh) != 2 or not (0 <= i < sh[0] and 0 <= j < sh[1]):
         return S.UNDEF
     return float(m[i][j])
+
+
+# ---- eigenvalues of small concrete symmetric matrices (assumed model of np.linalg.eigvalsh, lower triangle used)
+
+def _eigvalsh(self, interp, args, kwargs, node):
+    x = args[0]
+    if _nested(x):
+        n = len(x.items)
+        if n == 1 and len(x.items[0].items) == 1:
+            return CList([x.items[0].items[0]], "ndarray", "real")
+        if n == 2 and all(len(r.items) == 2 for r in x.items):
+            a, b, d = x.items[0].items[0], x.items[1].items[0], x.items[1].items[1]
+            disc = arith("+", arith("*", arith("-", a, d), arith("-", a, d)), arith("*", 4, arith("*", b, b)))
+            s = self.real_fn(interp, "sqrt", disc, node)
+            half = Fraction(1, 2)
+            return CList([arith("*", half, arith("-", arith("+", a, d), s)), arith("*", half, arith("+", arith("+", a, d), s))], "ndarray", "real")
+    interp.err(node, "np.linalg.eigvalsh of %r (only concrete 1x1 and 2x2 matrices are modelled)" % (x,))
+
+
+Lib.f_np__linalg__eigvalsh = _eigvalsh
+_old_getattr2 = Lib.getattr
+
+
+def _getattr2(self, interp, obj, attr, node):
+    if attr == "ndim":
+        if isinstance(obj, SCALAR) and not isinstance(obj, (bool, SBool)):
+            return 0
+        if isinstance(obj, CList) and obj.kind in ("ndarray", "list") and not _nested(obj) and all(isinstance(x, SCALAR) for x in obj.items):
+            return 1
+    return _old_getattr2(self, interp, obj, attr, node)
+
+
+Lib.getattr = _getattr2
